@@ -294,8 +294,11 @@ class Ctx:
         ev = {"property_id": self.prop, "tier": self.tier, "seed": self.seed, "level": self.level,
               "coverage": cov, "assumptions": self.assumptions, "wall_s": round(wall, 2),
               "violations": len(self.violations)}
-        (VERIF / "evidence").mkdir(exist_ok=True)
-        (VERIF / "evidence" / f"{self.prop}.json").write_text(jdump(ev, indent=1) + "\n")
+        # evidence/ describes /repo itself: a development run against another tree (VERIF_REPO=<scratch worktree>, used by
+        # tools/try_seeded.sh) must not overwrite it
+        edir = VERIF / "evidence" if str(REPO) == "/repo" else Path(tempfile.gettempdir()) / "verif-evidence-other-tree"
+        edir.mkdir(exist_ok=True)
+        (edir / f"{self.prop}.json").write_text(jdump(ev, indent=1) + "\n")
         shutil.rmtree(self.scratch, ignore_errors=True)
         for m, n in sorted(self.known.items()):
             f = self.findings[m]
